@@ -112,6 +112,9 @@ func (Fam) Gen(r *rand.Rand, i int) string {
 	if r.Intn(12) == 0 {
 		return genDecCoinsOp(r)
 	}
+	if r.Intn(8) == 0 {
+		return genDCoinsOp(r)
+	}
 	if r.Intn(30) == 0 {
 		return genConvertOp(r)
 	}
@@ -649,6 +652,9 @@ func (Fam) Exec(op string) (string, []common.Failure) {
 	k := f[0]
 	if strings.HasPrefix(k, "coins.") {
 		return execCoins(op)
+	}
+	if strings.HasPrefix(k, "dcoins.") {
+		return execDCoins(op)
 	}
 	if strings.HasPrefix(k, "mon.deccoins.") {
 		return execDecCoins(op)
